@@ -79,6 +79,9 @@ def run_c01(tier):
             jobs.append({'kind': 'h2c', 'seed': vlib.jseed(seed, i, 500 + r), 'case': c})
     ck.cov['hash_to_curve_cases'] = len(hcases)
     execute(ck, 'C01', jobs)
+    # identity public keys that come out of a DKG (a dealer polynomial with a root at a participant's point): they verify nothing
+    import dkg
+    dkg.run_refdeal(ck, 'C01', tier, vlib.build_vh(), seed, only_shapes=['root', 'generic'])
     for c in cases:
         ck.case(vlib.digest([c['key'], c['hasher'], c['sig']]), c['sig'] != 'valid' or c['expect'] != 'true')
     ck.cov['traces_validated_against_impl'] = len(jobs)
